@@ -1,49 +1,89 @@
-"""C17 — approximate equality is number-by-number for every type (30 impls)."""
+"""C17 — approximate equality is number-by-number for every type (30 impls).
+
+Decided semantically: the value-numbered boolean result of each abs_diff_eq / relative_eq must be propositionally
+equivalent to the conjunction, over every field of the ADT, of "self.f ~ other.f under the unchanged tolerances",
+where a sequence field may be compared through the slice impl, element by element (fixed-size arrays), or by an
+explicit length check plus an element-wise `all` over the zipped sequences."""
+import itertools
 from .common import *
-from ..terms import sym, term_str
+from ..terms import sym, term_str, subterms, subst_term, mk_and, TRUE, FALSE
 from ..values import *
 from ..facts import ty_str
+from .boollogic import equivalent, implies
 
 LEVEL = 'proof'
 TRUSTED = ['approx 0.5.1: f64 and slice impls of AbsDiffEq/RelativeEq (slice impl compares lengths, then elementwise)']
 ASSUMPTIONS = []
-EXPLANATION = ('each abs_diff_eq / relative_eq body must be a pure conjunction with exactly one conjunct per field of the '
-               'ADT, comparing self.f with other.f under the unchanged tolerances; arrays and vectors go through the '
-               'slice impl (which carries the length check); default_* forward the f64 defaults')
+EXPLANATION = ('each abs_diff_eq / relative_eq result is shown propositionally equivalent (truth table over its comparison atoms) '
+               'to the conjunction over all fields of the ADT of self.f ~ other.f with eps / max_relative passed through; '
+               'sequence fields: slice impl, per-element conjunction, or length check ∧ element-wise all; default_* forward the f64 defaults')
 
 
-def conjuncts(t, out):
-    if t[0] == 'and':
-        conjuncts(t[1], out)
-        conjuncts(t[2], out)
-    else:
-        out.append(t)
+def atom(meth, tystr, a, b, tols):
+    return ('approx', meth, tystr, a, b) + tuple(tols)
 
 
-def field_abstract(it, st, v):
-    """the forms in which a field can legitimately reach the approx callee"""
-    a = it.abstract(st, v)
-    forms = [a]
-    if isinstance(v, Arr):
-        forms.append(('view', a, ('ic', 0), ('ic', len(v.elems))))
-    if isinstance(v, VecV) and isinstance(v.seq, SeqSym):
-        forms = [('view', v.seq.term(), ('ic', 0), ('len', v.seq.term()))]
-    return forms
+def field_variants(it, st, meth, tols, fld, sv, ov, adts):
+    """acceptable formulas for one field -> list of (formula, description, all-atom matcher or None)"""
+    fty = fld['ty']
+    out = []
+    if fty['k'] == 'float':
+        out.append((atom(meth, 'f64', sv, ov, tols), 'f64 comparison', None))
+    elif fty['k'] == 'array' and fty['ty']['k'] == 'float' and isinstance(sv, Arr):
+        a, b = it.abstract(st, sv), it.abstract(st, ov)
+        n = len(sv.elems)
+        va = ('view', a, ('ic', 0), ('ic', n))
+        vb = ('view', b, ('ic', 0), ('ic', n))
+        out.append((atom(meth, '[f64]', va, vb, tols), 'slice impl', None))
+        f = TRUE
+        for x, y in zip(sv.elems, ov.elems):
+            f = mk_and(f, atom(meth, 'f64', x, y, tols))
+        out.append((f, 'element by element', None))
+    elif fty['k'] == 'adt' and fty['path'] == 'std::vec::Vec' and isinstance(sv, VecV) and isinstance(sv.seq, SeqSym):
+        S, O = sv.seq.term(), ov.seq.term()
+        va = ('view', S, ('ic', 0), ('len', S))
+        vb = ('view', O, ('ic', 0), ('len', O))
+        ety = fty['args'][0]
+        out.append((atom(meth, '[%s]' % ty_str(ety), va, vb, tols), 'slice impl', None))
+        out.append((mk_and(('icmp', 'eq', ('len', S), ('len', O)), ('ELEMWISE', fld['name'])), 'length check ∧ element-wise all', (S, O, ety)))
+    elif fty['k'] == 'param' or fty['k'] == 'adt':
+        a = it.abstract(st, sv)
+        b = it.abstract(st, ov)
+        out.append((atom(meth, ty_str(fty), a, b, tols), 'delegates to the field type', None))
+    return out
+
+
+def elem_formula(it, st, meth, tols, ety, S, O, ivar, adts):
+    """the relation of the element type applied to S[ι], O[ι] (local struct: conjunction over its fields)"""
+    if ety['k'] == 'float':
+        return atom(meth, 'f64', ('elem', S, ivar, ''), ('elem', O, ivar, ''), tols)
+    if ety['k'] == 'adt' and ety['path'] in adts:
+        a = adts[ety['path']]
+        m = dict(zip(a['generics'], ety['args']))
+        f = TRUE
+        from ..facts import subst_ty
+        for fl in a['variants'][0]['fields']:
+            ft = subst_ty(fl['ty'], m)
+            tstr = 'f64' if ft['k'] == 'float' else ty_str(ft)
+            f = mk_and(f, atom(meth, tstr, ('elem', S, ivar, fl['name']), ('elem', O, ivar, fl['name']), tols))
+        return f
+    return None
 
 
 def check(cx):
     rep = Report('C17')
     n = {'approx::AbsDiffEq': 0, 'approx::RelativeEq': 0}
+    adts = cx.facts.adts
     for im in cx.facts.impls:
         tr = im['trait']
         if tr not in n or im['from_derive']:
             continue
         n[tr] += 1
         st_ty = im['self_ty']
-        if st_ty['k'] != 'adt' or st_ty['path'] not in cx.facts.adts:
+        if st_ty['k'] != 'adt' or st_ty['path'] not in adts:
             rep.finding('shape', im['path'], 'approx impl on a non-local type')
             continue
-        a_dt = cx.facts.adts[st_ty['path']]
+        a_dt = adts[st_ty['path']]
         fields = a_dt['variants'][0]['fields']
         meth = 'abs_diff_eq' if tr == 'approx::AbsDiffEq' else 'relative_eq'
         dmeth = 'default_epsilon' if tr == 'approx::AbsDiffEq' else 'default_max_relative'
@@ -67,66 +107,88 @@ def check(cx):
                     a = cx.analyse(f, arg_names=names)
                     rep.analysed_fns.add(inst)
                     it, st = a.it, a.state
-                    ret = a.ret
-                    cj = []
-                    if not isinstance(ret, tuple):
+                    R = a.ret
+                    if not isinstance(R, tuple):
                         rep.ob('conj', inst, False, 'result is not a boolean term', fn=inst, file=file, line=line)
                         return
-                    conjuncts(ret, cj)
-                    pure = all(c[0] == 'approx' for c in cj)
-                    rep.ob('conj', inst, pure, 'result = ' + term_str(ret)[:300], fn=inst, file=file, line=line,
-                           msg='result is not a pure conjunction of per-field comparisons: ' + term_str(ret)[:300])
-                    if not pure:
-                        return
+                    tols = (sym('eps'),) + ((sym('max_relative'),) if meth == 'relative_eq' else ())
                     sv = it.read(st, a.args[0].root, a.args[0].path)
                     ov = it.read(st, a.args[1].root, a.args[1].path)
-                    used = [False] * len(cj)
+                    per_field = []
                     for k, fld in enumerate(fields):
-                        fa = field_abstract(it, st, sv.fields[k])
-                        fb = field_abstract(it, st, ov.fields[k])
-                        hit = None
-                        for j, c in enumerate(cj):
-                            if used[j]:
+                        per_field.append(field_variants(it, st, meth, tols, fld, sv.fields[k], ov.fields[k], adts))
+                    # recognise spelled-out element-wise comparisons and replace them by tokens
+                    R2 = R
+                    for k, fld in enumerate(fields):
+                        for formula, desc, em in per_field[k]:
+                            if em is None:
                                 continue
-                            if c[3] in fa and c[4] in fb:
-                                hit = j
-                                break
+                            S, O, ety = em
+                            for t0 in list(subterms(R2)):
+                                if t0[0] == 'all' and isinstance(t0[1], tuple) and t0[1][:2] == ('stream', 'zip'):
+                                    za, zb = t0[1][2], t0[1][3]
+                                    whole_a = ('stream', 'src', ('view', S, ('ic', 0), ('len', S)), ('str', 'ref'))
+                                    whole_b = ('stream', 'src', ('view', O, ('ic', 0), ('len', O)), ('str', 'ref'))
+                                    if za == whole_a and zb == whole_b:
+                                        want = elem_formula(it, st, meth, tols, ety, S, O, t0[2], adts)
+                                        if want is not None and equivalent(t0[3], want) is True:
+                                            R2 = subst_term(R2, {t0: ('ELEMWISE', fld['name'])})
+                    ok = False
+                    used = None
+                    for combo in itertools.product(*[range(len(v)) for v in per_field]) if all(per_field) else []:
+                        conj = TRUE
+                        for k, j in enumerate(combo):
+                            conj = mk_and(conj, per_field[k][j][0])
+                        if equivalent(R2, conj) is True:
+                            ok = True
+                            used = [per_field[k][j][1] for k, j in enumerate(combo)]
+                            break
+                    rep.ob('conj', inst, ok, 'result ⇔ ∧ over fields %s (%s)' % ([fl['name'] for fl in fields], ', '.join(used or [])) if ok else 'result = ' + term_str(R)[:300],
+                           fn=inst, file=file, line=line,
+                           msg='result is not equivalent to the field-by-field conjunction under the given tolerances: ' + term_str(R)[:300])
+                    # per-field diagnostics (which field is missing / compared wrongly / with changed tolerances)
+                    ats = [t0 for t0 in subterms(R2) if t0[0] == 'approx' or t0[0] == 'ELEMWISE']
+                    for k, fld in enumerate(fields):
                         finst = '%s:%s' % (inst, fld['name'])
-                        if hit is None:
-                            # distinguish "missing" from "compares the wrong things"
-                            wrong = [c for j, c in enumerate(cj) if not used[j] and (c[3] in fa or c[4] in fb or c[3] in fb or c[4] in fa)]
-                            if wrong:
-                                rep.ob('lane', finst, False, 'field `%s` is compared as %s' % (fld['name'], term_str(wrong[0])[:200]),
-                                       fn=inst, file=file, line=line,
-                                       msg='field `%s`: conjunct does not compare self.%s with other.%s: %s' % (fld['name'], fld['name'], fld['name'], term_str(wrong[0])[:240]))
-                            else:
-                                rep.ob('cover', finst, False, 'no conjunct for field `%s`' % fld['name'], fn=inst, file=file, line=line,
-                                       msg='field `%s` of %s is not compared at all' % (fld['name'], st_ty['path']))
-                            continue
-                        used[hit] = True
-                        c = cj[hit]
-                        rep.ob('cover', finst, True, 'field `%s` compared' % fld['name'])
-                        rep.ob('lane', finst, True, '')
-                        okm = c[1] == meth
-                        tol_ok = c[5] == sym('eps') and (meth == 'abs_diff_eq' or c[6] == sym('max_relative'))
-                        rep.ob('tol', finst, okm and tol_ok, term_str(c)[:200], fn=inst, file=file, line=line,
-                               msg='field `%s`: tolerances are not passed through unchanged (or the wrong relation is used): %s' %
-                               (fld['name'], term_str(c)[:240]))
-                        # arrays / vectors must use the slice impl (length check lives there)
-                        fty = fld['ty']
-                        if fty['k'] == 'array' or (fty['k'] == 'adt' and fty['path'] == 'std::vec::Vec'):
-                            rep.ob('slice', finst, c[2].startswith('['), 'callee impl on %s' % c[2], fn=inst, file=file, line=line,
-                                   msg='field `%s`: sequence is not compared through the slice impl: %s' % (fld['name'], c[2]))
-                    extra = [c for j, c in enumerate(cj) if not used[j]]
-                    if extra:
-                        rep.ob('extra', inst, False, 'conjuncts that compare no field pair: ' + '; '.join(term_str(c)[:120] for c in extra),
-                               fn=inst, file=file, line=line)
-                    rep.sample({'fn': inst, 'result': term_str(ret)[:300]})
+                        fa = it.abstract(st, sv.fields[k])
+                        fb = it.abstract(st, ov.fields[k])
+                        mentions = [t0 for t0 in ats if t0[0] == 'ELEMWISE' and t0[1] == fld['name']]
+                        for t0 in ats:
+                            if t0[0] == 'approx':
+                                blob_a, blob_b = list(subterms(t0[3])), list(subterms(t0[4]))
+                                leafs = set(x for x in subterms(fa) if x[0] in ('sym', 'seq')) | ({fa} if fa[0] in ('sym', 'seq') else set())
+                                if any(x in leafs for x in blob_a) or any(x in leafs for x in blob_b):
+                                    mentions.append(t0)
+                        covered = ok or bool(mentions)
+                        rep.ob('cover', finst, covered, 'field `%s` compared' % fld['name'], fn=inst, file=file, line=line,
+                               msg='field `%s` of %s is not compared at all' % (fld['name'], st_ty['path']))
+                        if not ok and mentions:
+                            lane_bad = []
+                            tol_bad = []
+                            for t0 in mentions:
+                                if t0[0] != 'approx':
+                                    continue
+                                oleafs = set(x for x in subterms(fb) if x[0] in ('sym', 'seq')) | ({fb} if fb[0] in ('sym', 'seq') else set())
+                                if not any(x in oleafs for x in subterms(t0[4])):
+                                    lane_bad.append(t0)
+                                if t0[1] != meth or tuple(t0[5:]) != tols:
+                                    tol_bad.append(t0)
+                            if lane_bad:
+                                rep.ob('lane', finst, False, 'field `%s` is compared as %s' % (fld['name'], term_str(lane_bad[0])[:200]), fn=inst, file=file, line=line,
+                                       msg='field `%s`: conjunct does not compare self.%s with other.%s: %s' % (fld['name'], fld['name'], fld['name'], term_str(lane_bad[0])[:240]))
+                            if tol_bad:
+                                rep.ob('tol', finst, False, term_str(tol_bad[0])[:200], fn=inst, file=file, line=line,
+                                       msg='field `%s`: tolerances are not passed through unchanged (or the wrong relation is used): %s' % (fld['name'], term_str(tol_bad[0])[:240]))
+                        else:
+                            rep.ob('lane', finst, True, '')
+                            rep.ob('tol', finst, True, '')
+                    rep.sample({'fn': inst, 'result': term_str(R)[:300]})
                 guarded(rep, 'conj', inst, f, go)
     for tr, k in n.items():
         if k < 15:
             rep.finding('floor', tr, 'only %d impls of %s found, expected 15' % (k, tr))
     rep.floor('conj', 30)
     rep.floor('default', 30)
+    rep.floor('cover', 38)
     rep.extra_coverage = {'impls': n}
     return rep
